@@ -68,6 +68,28 @@ func (n *zzNode) menuBlock(m *zzMenuTx, a1Signed bool) *zzBlockOut {
 	return out
 }
 
+// menuBlock2 is menuBlock with two transactions.
+func (n *zzNode) menuBlock2(m1, m2 *zzMenuTx, a1Signed bool) *zzBlockOut {
+	out := &zzBlockOut{}
+	var votes []abcitypes.VoteInfo
+	for i := 0; i < 2; i++ {
+		if d := stake.ZZDelegatee(n.app.stakeCtrler, zzAddr(i)); d != nil {
+			votes = append(votes, abcitypes.VoteInfo{Validator: abcitypes.Validator{Address: zzAddr(i), Power: d.TotalPower}, SignedLastBlock: i == 0 || a1Signed})
+		}
+	}
+	n.begin(0, votes, nil)
+	for _, m := range []*zzMenuTx{m1, m2} {
+		if m != nil && m.kind != 0 {
+			r := n.deliver(m.build(n))
+			out.codes, out.gasUsed = append(out.codes, r.Code), append(out.gasUsed, r.GasUsed)
+		}
+	}
+	e := n.app.EndBlock(abcitypes.RequestEndBlock{Height: n.height})
+	out.ups = e.ValidatorUpdates
+	out.hash = n.app.Commit().Data
+	return out
+}
+
 func ZZ_C07_R1() {
 	govp := ctrlertypes.Test1GovParams()
 	// a short signing window so that downtime jailing is within reach
